@@ -238,7 +238,7 @@ theorem sim (P : Prog) (hP : ∀ f, (P.body f).cycleFree = true) (d : Nat → Na
     | read i h =>
       have hp0 := hp
       rw [pev_read] at hp
-      simp only [eval, unmark_gen, stored_gen]
+      simp only [eval, unmark_gen, stored_gen, errTask_gen, finish]
       cases hdv : present (st.dict i h) with
       | some v =>
         rw [hd] at hdv; simp only [hdv, Prod.mk.injEq] at hp
@@ -281,11 +281,11 @@ theorem sim (P : Prog) (hP : ∀ f, (P.body f).cycleFree = true) (d : Nat → Na
       cases fs with
       | nil =>
         simp only [pev, Prod.mk.injEq] at hp
-        simp only [eval, unmark_gen, stored_gen]
+        simp only [eval, unmark_gen, stored_gen, errTask_gen, finish]
         exact ⟨hp.1, hcoh⟩
       | cons f fs =>
         rw [pev_chain_cons, pev_cyc P d n f i false (st.marks f i) 0 (P.body f) (hP f)] at hp
-        simp only [eval, unmark_gen, stored_gen]
+        simp only [eval, unmark_gen, stored_gen, errTask_gen, finish]
         generalize hq : pev P d n (.body f i (st.marks f i) 0 (P.body f)) = q at hp
         obtain ⟨r0, b0⟩ := q
         have hb0 : b0 = false := by
@@ -330,13 +330,13 @@ theorem sim (P : Prog) (hP : ∀ f, (P.body f).cycleFree = true) (d : Nat → Na
           · next heq' => cases heq'; exact ⟨hp.1, hc2⟩
     | body f i cyc acc b =>
       cases b with
-      | ret v => simp only [pev, Prod.mk.injEq] at hp; simp only [eval, unmark_gen, stored_gen]; exact ⟨hp.1, hcoh⟩
-      | retAcc c => simp only [pev, Prod.mk.injEq] at hp; simp only [eval, unmark_gen, stored_gen]; exact ⟨hp.1, hcoh⟩
-      | raise e => simp only [pev, Prod.mk.injEq] at hp; simp only [eval, unmark_gen, stored_gen]; exact ⟨hp.1, hcoh⟩
+      | ret v => simp only [pev, Prod.mk.injEq] at hp; simp only [eval, unmark_gen, stored_gen, errTask_gen, finish]; exact ⟨hp.1, hcoh⟩
+      | retAcc c => simp only [pev, Prod.mk.injEq] at hp; simp only [eval, unmark_gen, stored_gen, errTask_gen, finish]; exact ⟨hp.1, hcoh⟩
+      | raise e => simp only [pev, Prod.mk.injEq] at hp; simp only [eval, unmark_gen, stored_gen, errTask_gen, finish]; exact ⟨hp.1, hcoh⟩
       | read rr h k =>
         have hk : k.cycleFree = true := by simpa [Task.cycleFree, Body.cycleFree] using hcf
         rw [pev_body_read] at hp
-        simp only [eval, unmark_gen, stored_gen]
+        simp only [eval, unmark_gen, stored_gen, errTask_gen, finish]
         generalize hq : pev P d n (.read (resolve i rr) h) = q at hp
         obtain ⟨r0, b0⟩ := q
         have hb0 : b0 = false := by
@@ -361,7 +361,7 @@ theorem sim (P : Prog) (hP : ∀ f, (P.body f).cycleFree = true) (d : Nat → Na
       | ifHas rr h x y =>
         have hk : x.cycleFree = true ∧ y.cycleFree = true := by simpa [Task.cycleFree, Body.cycleFree] using hcf
         rw [pev_body_has] at hp
-        simp only [eval, unmark_gen, stored_gen]
+        simp only [eval, unmark_gen, stored_gen, errTask_gen, finish]
         generalize hq : pev P d n (.read (resolve i rr) h) = q at hp
         obtain ⟨r0, b0⟩ := q
         have hb0 : b0 = false := by
